@@ -528,7 +528,15 @@ impl Harness for C04 {
             max_len: if large { 400 } else { (2 * k + 60).min(160) },
             allow_short: true,
         };
-        let (reads, _) = dna::gen_reads(rng, &cfg);
+        let (mut reads, _) = dna::gen_reads(rng, &cfg);
+        if rng.chance(1, 300) {
+            reads.clear(); // nothing to assemble
+        }
+        if tier == Tier::Thorough && rng.chance(1, 3000) && k <= 32 {
+            // one read longer than 2^16 bases (u16 interval lengths, u32 starts)
+            let hl = 65_536 + rng.range(100, 3000);
+            reads.push(dna::random_seq(rng, hl, &[0, 1, 2, 3]));
+        }
         let n = reads.len();
         let stranded = rng.chance(1, 3);
         let label_mode = rng.below(3);
